@@ -27,7 +27,12 @@ R = Run('loopback HTTP listener: 9 verbs + unknown verbs; Accept/Accept-Charset/
 
 warnings.simplefilter('ignore')
 logging.getLogger('pywbem').addHandler(logging.NullHandler())
-TIMEOUT = 30.0
+TIMEOUT = 10.0
+TIMEOUTS = [0]
+
+
+class Abort(Exception):
+    pass
 QUICK = R.tier == 'quick'
 RND = random.Random(R.seed)
 
@@ -309,6 +314,7 @@ class Listener:
             while not any(t == tag for t, _, _ in self.log):
                 left = end - time.time()
                 if left <= 0:
+                    TIMEOUTS[0] += 1
                     return False
                 self.cond.wait(left)
         return True
@@ -347,6 +353,7 @@ class Listener:
                     data += d
             except socket.timeout:
                 note = 'timeout'
+                TIMEOUTS[0] += 1
             except OSError:
                 pass        # reset after the response (request body left unread by the server)
         finally:
@@ -598,8 +605,8 @@ def known_drop(raw, exc):
     cls = exc.split(':')[0] if exc else None
     head, body = head_body(raw)
     text = body.decode('utf-8', 'replace')
-    cl = [int(x) for x in re.findall(rb'(?im)^content-length:[ \t]*([0-9]+)[ \t]*\r?$', head)]
-    if cls in (None, 'OverflowError', 'MemoryError') and cl and max(cl) >= 2**40:
+    cl = [len(x.lstrip(b'0')) for x in re.findall(rb'(?im)^content-length:[ \t]*([0-9]+)[ \t]*\r?$', head)]
+    if cls in (None, 'OverflowError', 'MemoryError') and cl and max(cl) >= 16:      # announced length >= 10**15
         return 'known:huge-content-length-drops-connection'
     if cls in (None, 'UnicodeEncodeError') and any(ord(c) > 255 for c in text):
         return 'known:non-latin1-text-in-error-details-drops-connection'
@@ -732,6 +739,8 @@ def probe(family, raw, pending):
 
 def run_case(family, key, raw, expect, half_close=True, pieces=None, deliver=None, msgid=None, meth=None, nreq=1):
     """expect: list of acceptable outcome patterns, or 'survive' (wire format not judged: HTTP/0.9 style exchanges)."""
+    if TIMEOUTS[0] >= 3:
+        raise Abort()       # the listener stopped answering (already reported): do not wait out every remaining case
     R.case((family, key))
     data, exc, note = LSN.exchange(raw, half_close=half_close, pieces=pieces)
     pending = []
@@ -1325,6 +1334,8 @@ def phase_connection():
 
 def phase_concurrent():
     """8 client threads, each a fixed mix of valid and hostile requests, all at once."""
+    if TIMEOUTS[0] >= 3:
+        raise Abort()
     plans = []
     for t in range(8):
         plan = []
@@ -1349,6 +1360,9 @@ def phase_concurrent():
 
     def worker(i):
         for raw, exp, hc, v in plans[i]:
+            if TIMEOUTS[0] >= 3:
+                results[i].append((b'', None, 'timeout'))
+                continue
             try:
                 results[i].append(LSN.exchange(raw, half_close=hc, pieces=v['pieces'] if v else None))
             except Exception as e:          # transport failure of the client itself
@@ -1381,6 +1395,8 @@ def phase_concurrent():
 def phase_queue_full():
     """Second listener with a 2-entry queue and a callback that blocks: accepted / refused / accepted again."""
     global LSN
+    if TIMEOUTS[0] >= 3:
+        raise Abort()
     main = LSN
     q = Listener(max_ind_queue_size=2)
     LSN = q
@@ -1449,12 +1465,20 @@ def main():
         for ph in (phase_valid, phase_methods, phase_headers, phase_content_length, phase_body, phase_request_line, phase_connection,
                    phase_fuzz, phase_concurrent, phase_queue_full):
             t0 = time.time()
-            ph()
+            try:
+                ph()
+            except Abort:
+                break
+            except Exception as e:      # a defect of this script, never of pywbem: visible, but the run still finishes
+                import traceback
+                R.violation('standin-internal-error:' + ph.__name__, error=repr(e), traceback=traceback.format_exc()[-1500:])
             if R.cfg.get('verbose'):
                 sys.stderr.write('%s %.1fs cases=%d\n' % (ph.__name__, time.time() - t0, R.cases))
         # final: the listener that took all of the above still accepts and delivers
-        v = valid_request(0, 0)
-        run_case('final-valid', 0, v['raw'], ['ok'], half_close=False, deliver=(v['tag'], v['spec']), msgid=v['msgid'], meth='ExportIndication')
+        if TIMEOUTS[0] < 3:
+            v = valid_request(0, 0)
+            run_case('final-valid', 0, v['raw'], ['ok'], half_close=False, deliver=(v['tag'], v['spec']), msgid=v['msgid'],
+                     meth='ExportIndication')
     finally:
         stop_and_check(LSN)
     left = [t.name for t in threading.enumerate() if t is not threading.main_thread()]
